@@ -22,7 +22,9 @@ def mMoveIn (p : Path) (a : Addr) : Micro := fun s =>
 /-- `if target_path.exists() { remove_file }` -/
 def mUnlinkWs (p : Path) : Micro := fun s => if (s.readThrough p).isSome then s.setWs p none else s
 
-/-- `recheck_from_cache` (copy: create + write + chmod; link; symlink) -/
+/-- `recheck_from_cache`: one atomic appearance at the path — copy: written under a hidden temporary name
+    next to the path and renamed into place (since the repair b89c0fee; before it the file was created,
+    written and chmod-ed in place, which is what the crash harness found); hard link; symlink -/
 def mMaterialise (p : Path) (a : Addr) (m : Method) : Micro := fun s => (s.recheckFromCache p a m).1
 
 /-- saving the records of one entity -/
